@@ -891,7 +891,7 @@ def gen_td_tree(rng: Rng, depth: int, counter: list, allow_other: bool):
         fields.append((name, orig, tag, rng.chance(1, 3)))
     with warnings.catch_warnings():
         warnings.simplefilter("ignore")  # "Field name … is duplicated"
-        obj = TypedDict(reference=ref, fields=[fld(*f) for f in fields], base_classes=[r for _, r in bases] or None)
+        TypedDict(reference=ref, fields=[fld(*f) for f in fields], base_classes=[r for _, r in bases] or None)  # sets ref.source
     return ([t for t, _ in bases], [f[:3] for f in fields]), ref
 
 
